@@ -109,7 +109,7 @@ snapprop("C03", "proof", "Texel.Properties.C03",
     translators=["arith"])
 
 snapprop("C06", "other", "Texel.Properties.C06",
-    ["Texel.C06.C06_no_points_found_unreachable", "Texel.C06.C06_keys_encodable", "Texel.C06.C06_index_total", "Texel.C06.C06_ring_cleanup_total_partial", "Texel.C06.C06_total_up_to_kmp_partial", "Texel.C06.C06_F16_strip"],
+    ["Texel.C06.C06_no_points_found_unreachable", "Texel.C06.C06_keys_encodable", "Texel.C06.C06_index_total", "Texel.C06.C06_ring_cleanup_total_partial", "Texel.C06.C06_total_up_to_kmp_partial", "Texel.C06.C06_removeSequences_sublist", "Texel.C06.C06_total_up_to_kmp_ranges_partial", "Texel.C06.C06_F16_strip"],
     ["snap", "kmp", "split", FUNC],
     "Lean 4 theorems for the panic sites that are closed (no-points-found, MustToZ up to level 32, index construction, every panic of splitRing) + recover/watchdog exploration with adversarial sequences, function-level kmp/split correspondence",
     "Partial proof + exploration: the no-points-found panic, MustToZ up to level 32, the index construction and every panic of splitRing (stack index out of range, nil Newest, partial rings remaining) are proved unreachable for every in-grid polygon "
